@@ -263,6 +263,9 @@ pub fn fan_out(info: &PropInfo, verif_seed: u64, lo: u64, hi: u64, workers: usiz
 pub fn minimise(replay: &Value, class: &str, scratch: &Path, budget: Duration) -> Value {
     let t0 = Instant::now();
     let mut best = replay.clone();
+    if replay.get("engine").and_then(|e| e.as_str()).map(|e| e.starts_with("E4")).unwrap_or(false) {
+        return best; // the recorded choice list is the schedule; it is replayed exactly, not shrunk
+    }
     let Some(events) = replay.get("events").and_then(|e| e.as_array()).cloned() else { return best };
     let mut cur = events;
     // Minimisation must not slip into a different, already known defect: histories keep the
@@ -435,6 +438,7 @@ pub fn nontrivial(prop: &str, c: &BTreeMap<String, u64>) -> bool {
         "C13" => g("vacuums") > 0 && g("state_checks") > 0,
         "C15" => g("ddl_in_session") > 0,
         "C16" => g("failed_statements_in_session") > 0,
+        "C14" => g("context_switches") >= 10 && g("failed_polls") >= 1,
         "C20" => (g("pipe_fragmented_reads") + g("pipe_read_eintr") + g("pipe_short_writes")) > 0 && (g("truncated_streams") + g("garbage_streams") + g("mutated_frames") + g("mangled_frames")) > 0,
         "C17" => g("reads_nonempty_correct") > 0 && (g("reopens") + g("truncations") + g("appends_near_block_size")) > 0,
         "C01" => g("crash_points_after_an_ack") > 0,
